@@ -673,6 +673,20 @@ impl TypedExpr {
                 };
                 Literal::Enum(name, variant_name.clone(), variant)
             }
+            // an unsuffixed range that was converted to an array of signed numbers
+            ExprEnum::Cast(_, range)
+                if matches!(
+                    range.inner,
+                    ExprEnum::Range(_, _, UnsignedNumType::Unspecified)
+                ) =>
+            {
+                Expr {
+                    inner: range.inner,
+                    meta: range.meta,
+                    ty,
+                }
+                .into_literal()
+            }
             ExprEnum::Range(min, max, UnsignedNumType::Unspecified) => {
                 // a range without a type suffix stands for the elements of the array type that it
                 // was checked against (as a `Range` it would keep the width of an unspecified number)
